@@ -448,7 +448,7 @@ def gen_case(r, cid):
     text = seq_text(seq)
     ps, gaps = pieces(seq)
     meta = dict(pattern=text, pieces=len(ps), alt=has_alt(seq), buflen=len(buf), gaps=gaps, seq=seq)
-    line = "%s src=%s re=%s fl=as buf=%s info=1 code=1 fx=1" % (cid, hx(rule_text(text)), rc.ast_text(ast), hx(buf))
+    line = "%s src=%s re=%s fl=as buf=%s info=1 code=1 fx=1 atoms=1" % (cid, hx(rule_text(text)), rc.ast_text(ast), hx(buf))
     return line, meta
 
 
@@ -487,7 +487,7 @@ def run(tier, replay=None):
     cases, metas = [], {}
     for i, (pat, buf) in enumerate(CORPUS):
         cid = "k%d" % i
-        cases.append("%s src=%s re=? fl=as buf=%s info=1 code=1 fx=1" % (cid, hx(rule_text(pat)), hx(buf)))
+        cases.append("%s src=%s re=? fl=as buf=%s info=1 code=1 fx=1 atoms=1" % (cid, hx(rule_text(pat)), hx(buf)))
         metas[cid] = dict(pattern=pat, corpus=True, buflen=len(buf))
     for i in range(n):
         line, meta = gen_case(r, "c%d" % i)
@@ -605,13 +605,15 @@ def run(tier, replay=None):
     fxres = check_fx(chk, b, cases, amap, lres, replay, found)
     found = found or fxres.get("found", False)
     wres, wfound = rc.check_wfx(core, chk, b, cases, lambda l, kind, err: False, found_so_far=found) if lres.get("driver_ok") else ({}, False)
+    ares, afound = rc.check_atoms(core, chk, cases, imap, found_so_far=found) if lres.get("driver_ok") else ({}, False)
+    found = found or afound
     found = found or wfound
     chk.cov.update({
         "evaluations": len(cases) + len(mal), "distinct_nontrivial": len(distinct),
         "rule": "generated hex pattern x buffer built from instances / near-misses of the pattern; non-trivial = the specification admits at least one match in the buffer "
                 "(distinct (pattern, buffer) pairs)",
         "histogram": hist, "malformed_rejected": nmal, "violating_cases": nviol, "known_finding_cases": {k: len(v) for k, v in known_hits.items()},
-        "traces_validated_against_impl": len(cases) - nviol, "fx": fxres.get("cov"), "wfx": wres,
+        "traces_validated_against_impl": len(cases) - nviol, "fx": fxres.get("cov"), "wfx": wres, "atoms_tie": ares,
         "samples": [{"case_meta": metas.get(cases[min(len(cases) - 1, len(CORPUS))].split(" ", 1)[0]), "implementation": (impl[min(len(impl) - 1, len(CORPUS))][:300] if impl else None),
                      "model": (model[min(len(model) - 1, len(CORPUS))][:300] if model else None)}],
     })
